@@ -184,13 +184,95 @@ func genPorts(g *G) []networkv1.NetworkPolicyPort {
 var policyTypeChoices = [][]networkv1.PolicyType{nil, {networkv1.PolicyTypeIngress}, {networkv1.PolicyTypeEgress},
 	{networkv1.PolicyTypeIngress, networkv1.PolicyTypeEgress}, {networkv1.PolicyTypeEgress, networkv1.PolicyTypeIngress}}
 var policyTypeNames = []string{"types-unset", "types-ingress", "types-egress", "types-ingress+egress", "types-egress+ingress"}
-var ruleShapeNames = []string{"absent", "empty-list", "one-empty-rule", "rules-with-peers", "rules-ports-only"}
+var ruleShapeNames = []string{"absent", "empty-list", "one-empty-rule", "rules-with-peers", "rules-ports-only",
+	"ports-only-or-empty-rule-before-selector-rule", "selector-rule-before-ports-only-or-empty-rule", "ipblock-rules-mixed-with-selector-rules"}
 
-// genPolicy enumerates policyTypes x ingress shape x egress shape systematically (shape = idx mod 125) and fills the
+const nRuleShapes = 8
+
+// matchingPeer returns a selector peer that selects resident pods which have a PodIP (app=web/db/api, everything, or
+// their namespaces), so that pod events reach the per-rule ipsets of the policy.
+func matchingPeer(g *G) networkv1.NetworkPolicyPeer {
+	switch g.intn(6) {
+	case 0:
+		return networkv1.NetworkPolicyPeer{PodSelector: &metav1.LabelSelector{}}
+	case 1:
+		return networkv1.NetworkPolicyPeer{NamespaceSelector: &metav1.LabelSelector{}}
+	case 2:
+		return networkv1.NetworkPolicyPeer{NamespaceSelector: &metav1.LabelSelector{MatchLabels: map[string]string{"team": g.pick("a", "b")}}}
+	case 3:
+		return networkv1.NetworkPolicyPeer{PodSelector: &metav1.LabelSelector{MatchExpressions: []metav1.LabelSelectorRequirement{{
+			Key: "app", Operator: metav1.LabelSelectorOpIn, Values: []string{"web", "db", "api"}}}}}
+	default:
+		return networkv1.NetworkPolicyPeer{PodSelector: &metav1.LabelSelector{MatchLabels: map[string]string{"app": g.pick("web", "db", "api")}}}
+	}
+}
+
+// orderedRules builds the multi-rule shapes: the position of a rule in spec.ingress / spec.egress matters to code that
+// keeps per-rule state.
+func orderedRules(g *G, k int) []networkv1.NetworkPolicyIngressRule {
+	sel := func() networkv1.NetworkPolicyIngressRule {
+		r := networkv1.NetworkPolicyIngressRule{From: []networkv1.NetworkPolicyPeer{matchingPeer(g)}, Ports: genPorts(g)}
+		if g.chance(0.3) {
+			r.From = append(r.From, matchingPeer(g))
+		}
+		return r
+	}
+	hollow := func() networkv1.NetworkPolicyIngressRule {
+		switch g.intn(3) {
+		case 0:
+			return networkv1.NetworkPolicyIngressRule{}
+		case 1:
+			return networkv1.NetworkPolicyIngressRule{Ports: genPorts(g), From: []networkv1.NetworkPolicyPeer{}}
+		default:
+			return networkv1.NetworkPolicyIngressRule{Ports: genPorts(g)}
+		}
+	}
+	ipb := func() networkv1.NetworkPolicyIngressRule {
+		r := networkv1.NetworkPolicyIngressRule{From: []networkv1.NetworkPolicyPeer{{IPBlock: genIPBlock(g)}}, Ports: genPorts(g)}
+		if g.chance(0.3) {
+			r.From = append(r.From, networkv1.NetworkPolicyPeer{IPBlock: genIPBlock(g)})
+		}
+		return r
+	}
+	var rs []networkv1.NetworkPolicyIngressRule
+	switch k {
+	case 5:
+		for i := 0; i < 1+g.intn(2); i++ {
+			rs = append(rs, hollow())
+		}
+		rs = append(rs, sel())
+		if g.chance(0.4) {
+			rs = append(rs, sel())
+		}
+	case 6:
+		rs = append(rs, sel())
+		rs = append(rs, hollow())
+		if g.chance(0.5) {
+			rs = append(rs, sel())
+		}
+	default:
+		n := 2 + g.intn(3)
+		for i := 0; i < n; i++ {
+			switch g.intn(3) {
+			case 0:
+				rs = append(rs, sel())
+			case 1:
+				rs = append(rs, ipb())
+			default:
+				rs = append(rs, networkv1.NetworkPolicyIngressRule{From: []networkv1.NetworkPolicyPeer{{IPBlock: genIPBlock(g)}, matchingPeer(g)}})
+			}
+		}
+		rs[g.intn(len(rs))] = sel()
+		rs[g.intn(len(rs))] = ipb()
+	}
+	return rs
+}
+
+// genPolicy enumerates policyTypes x ingress shape x egress shape systematically (shape = idx mod 320) and fills the
 // rest randomly. Every policy it returns passes API-server validation.
 func genPolicy(g *G, idx int) (*networkv1.NetworkPolicy, string) {
-	shape := idx % 125
-	ti, ii, ei := shape%5, (shape/5)%5, shape/25
+	shape := idx % (5 * nRuleShapes * nRuleShapes)
+	ti, ii, ei := shape%5, (shape/5)%nRuleShapes, shape/(5*nRuleShapes)
 	np := &networkv1.NetworkPolicy{ObjectMeta: metav1.ObjectMeta{Name: fmt.Sprintf("np-%d", idx%7), Namespace: g.pick("ns1", "ns1", "ns2", "ns3", "ns-without-pods")}}
 	np.Spec.PodSelector = *genSelector(g, false)
 	np.Spec.PolicyTypes = policyTypeChoices[ti]
@@ -212,8 +294,10 @@ func genPolicy(g *G, idx int) (*networkv1.NetworkPolicy, string) {
 				rs = append(rs, networkv1.NetworkPolicyIngressRule{From: peers, Ports: genPorts(g)})
 			}
 			return rs
-		default:
+		case 4:
 			return []networkv1.NetworkPolicyIngressRule{{Ports: genPorts(g), From: genPeers(g)[:0]}}
+		default:
+			return orderedRules(g, k)
 		}
 	}
 	mkEgress := func(k int) []networkv1.NetworkPolicyEgressRule {
@@ -268,8 +352,9 @@ func (s *surf6) timeout(in *Input) time.Duration { return 10 * time.Second }
 func (s *surf6) gen(idx int) *Input {
 	g := newG(s.c.t.Seed, 6, idx, s.c.t.Total)
 	np, class := genPolicy(g, idx)
-	d := &polIn{np: np, focus: g.pick("AddPolicy", "SyncPodChains", "SyncPodIPInIPSet", "SyncPodIPInIPSet", "UpdatePolicy", "VerifFullSync", "DeletePolicy")}
-	np2, _ := genPolicy(g, g.intn(125))
+	d := &polIn{np: np, focus: g.pick("AddPolicy", "SyncPodChains", "SyncPodIPInIPSet", "SyncPodIPInIPSet", "UpdatePod", "DeletePod", "UpdatePolicy", "VerifFullSync",
+		"DeletePolicy")}
+	np2, _ := genPolicy(g, g.intn(5*nRuleShapes*nRuleShapes))
 	np2.Name, np2.Namespace = np.Name, np.Namespace
 	d.np2 = np2
 	show := map[string]interface{}{"policy": np}
@@ -309,6 +394,18 @@ func (s *surf6) call(in *Input) (string, string) {
 		}
 		for _, p := range e.pods {
 			e.pm.SyncPodIPInIPSet(p, false)
+		}
+	case "UpdatePod":
+		// pod update events for every resident pod (those with a PodIP reach the per-rule ipsets)
+		for _, p := range e.pods {
+			note(e.pm.UpdatePod(p, p))
+		}
+	case "DeletePod":
+		for _, p := range e.pods {
+			note(e.pm.DeletePod(p))
+		}
+		for _, p := range e.pods {
+			note(e.pm.UpdatePod(p, p))
 		}
 	case "UpdatePolicy":
 		_ = e.polIdx.Update(d.np2)
